@@ -2,8 +2,8 @@ package main
 
 func init() {
 	register(&PropDef{
-		ID:    "C01",
-		Level: "other",
+		ID:          "C01",
+		Level:       "other",
 		Explanation: "The concurrency bound is decided as a set of inductive lemmas over single operations, each a shape of the code (their conjunction over histories is argued in DESIGN.md, not mechanised): ADMIT-GUARD — the start function is called only where the admission decision's value set is {Start}, and in the dequeue loop only over a decision taken in the same iteration; START-ONLY-IF-FREE — on every order type of its inputs the admission table yields Start only if running < concurrency; NO UNDERCOUNT — the counting function ranges over the pipeline's whole list and increments whenever started ∧ ¬completed ∧ ¬canceled (8-row table, implication); SLOT-END — only the completion handler marks a job completed, it is called only by the job's scheduling goroutine after Scheduler.Schedule returned, whose stage goroutines are WaitGroup-paired and waited for before every return; the cancel request marks only unstarted jobs canceled directly; REGISTERED-BEFORE-STARTED; decision and start lie in one lock region; NO LOST UPDATE on the wait list (a popped job cannot reappear and be started twice); RELOAD APPLIES — in package app every path of the reload function that finds the freshly loaded definitions unequal passes them to ReplaceDefinitions, and the baseline of that comparison is a variable that outlives the invocation and is set to the applied definitions (a changed limit is not silently ignored).",
 		Trusted:     []string{"C13 (operations are atomic under the runner mutex)", "upstream taskctl runner executes a stage only inside Runner.Run"},
 		NotDecided:  []string{"joint sufficiency of the lemmas over arbitrary histories (paper argument)", "effects of lowering the limit on already running jobs (allowed by the statement)"},
@@ -33,8 +33,8 @@ func init() {
 		},
 	})
 	register(&PropDef{
-		ID:    "C07",
-		Level: "other",
+		ID:          "C07",
+		Level:       "other",
 		Explanation: "The numeric lower bound trusts time.AfterFunc; decided is what is armed and what is gated on it: a delayed job is never started by the request itself (admission table: delay>0 ∧ ¬ignore ⇒ ≠ Start on all order types; the accept function passes ignore=false); the timer is armed iff the job's own delay > 0, with the job's own StartDelay (taken from the definition at accept time) and a callback that addresses the job's own id; in the dequeue function every path to the start call takes the `head.startTimer == nil` edge; the timer is cleared only by the expiry handler or where the job leaves the list for good; the expiry handler clears and re-runs the dequeue (no second delay); under replace the previous job is marked canceled (hence refused by the start function), its slot is overwritten by the newest job at the last index; the retention decision keeps every waiting job on all order types of its inputs (the expiry handler finds the job by id, so a delayed job removed from the index would never start).",
 		Trusted:     []string{"time.AfterFunc does not fire early", "C13"},
 		NotDecided:  []string{"the numeric bound ≥ d", "that the newest job eventually runs (liveness)"},
@@ -60,8 +60,8 @@ func init() {
 		},
 	})
 	register(&PropDef{
-		ID:    "C15",
-		Level: "other",
+		ID:          "C15",
+		Level:       "other",
 		Explanation: "Agreement of sibling code paths, decided from the source: SCHEDULABLE — for every action constant the admission function can return, the schedulable predicate answers true exactly when the accept function does not reject that action, and both ask the same admission question (pipeline, ignore=false); RUNNING — the reported flag is ∃ job in the pipeline's list with the running predicate, whose 8-row table equals started ∧ ¬completed ∧ ¬canceled, and the admission count uses the same predicate; REGISTERED — every success return of the accept function passes the stores into both indexes, and jobs are deleted from the id index only on the retention path; ORDER — the job list comparator is newest-first, and every slice filled while ranging over a map in an API-reported order is sorted before its first use (no map-order leak); the job's task list is built by a plain function of the definition's tasks looked up in the accept function (not a method of the runner: the order cannot depend on the runner's history).",
 		Trusted:     []string{"C13", "sort.* sorts"},
 		NotDecided:  []string{"numeric order of timestamps (created ≤ start ≤ end)", "that the dependency sort is topological"},
@@ -86,8 +86,8 @@ func init() {
 		},
 	})
 	register(&PropDef{
-		ID:    "C16",
-		Level: "other",
+		ID:          "C16",
+		Level:       "other",
 		Explanation: "Reload isolation as who-reads/who-writes facts: the job literal takes Tasks (through the snapshot constructor), Env, StartDelay and Pipeline from the definition looked up in the accept function's lock region; the live definitions (r.defs) are read only by the functions listed with a reason (admission, accept-time lookup, fail-fast at failure time, retention at save time, pipeline listing) — in particular not by the start function, the graph builder or the scheduler callbacks; the graph is built from fields of the job itself; the task-runner factory reads the job's Env and captures no definitions; the reload's only effect is `defs = new`; no definition struct or map is mutated in place outside the loader (jobs share them by reference); the dequeue decision for a head whose timer is not pending ignores the current definition's delay (a reload cannot strand queued jobs); slices held in definition structs (script, depends_on) are never written through — element store, in-place filter append, sort, copy, directly or in a module callee; the reload function of package app replaces on every unequal comparison and keeps its comparison baseline up to date (reload.baseline).",
 		Trusted:     []string{"C13", "definitions handed to ReplaceDefinitions are not mutated by the embedder afterwards"},
 		NotDecided:  []string{"what an embedder does with definition values it still holds"},
